@@ -67,6 +67,9 @@ pub struct L1State {
     pub sched_traces: Vec<String>,
     /// dishonest tree (C07, last clause): (label, version) pairs whose predecessor was NOT retired in the epoch of this version
     pub unretired: Vec<(Vec<u8>, u64)>,
+    /// the database as it was after each successful publish of a small directory (epoch -> records): material of other
+    /// epochs' trees for the lookup adversary (`old.*` edits)
+    pub snaps: BTreeMap<u64, Vec<DbRecord>>,
     pub restart_permille: u64,
     /// C14: serve read operations through `ReadOnlyDirectory`
     pub readonly: bool,
@@ -93,6 +96,7 @@ impl Default for L1State {
             thorough: false,
             sched_traces: vec![],
             unretired: vec![],
+            snaps: BTreeMap::new(),
             restart_permille: 0,
             readonly: false,
             rng: crate::rng::Rng::new(7),
@@ -649,7 +653,7 @@ async fn anchored_at(inst: &Inst, label: NodeLabel, k: usize) -> Option<NonMembe
     Some(np)
 }
 
-async fn apply_lookup_edit(inst: &Inst, u: &AkdLabel, p: &mut LookupProof, tok: &str) -> Result<(), Option<()>> {
+async fn apply_lookup_edit(inst: &Inst, snaps: &BTreeMap<u64, Vec<DbRecord>>, u: &AkdLabel, p: &mut LookupProof, tok: &str) -> Result<(), Option<()>> {
     // Err(Some(())) = the edit cannot be constructed here ("err"); Err(None) = malformed token (bad-op)
     let parts: Vec<&str> = tok.split(':').collect();
     let rv = inst.root_value().await.ok_or(Some(()))?;
@@ -711,6 +715,30 @@ async fn apply_lookup_edit(inst: &Inst, u: &AkdLabel, p: &mut LookupProof, tok: 
             };
             let v: u64 = v.parse().map_err(|_| None)?;
             p.existence_vrf_proof = vrf_bytes(&inst.cfg, &u2, fr, v).await.ok_or(Some(()))?;
+        }
+        ["old.full", e] | ["old.exist", e] | ["old.marker", e] | ["old.fresh", e] => {
+            // the honest lookup proof the directory served at epoch `e`: a directory re-opened on the records of that epoch
+            let e: u64 = e.parse().map_err(|_| None)?;
+            let recs = snaps.get(&e).ok_or(Some(()))?;
+            let db = Db::new();
+            db.batch_set(recs.clone(), akd::storage::DbSetState::General).await.map_err(|_| Some(()))?;
+            let old = Inst::open(&inst.cfg, db, "none", AzksParallelismConfig::disabled()).await.ok_or(Some(()))?;
+            let (q, _, _) = old.lookup(u).await.ok_or(Some(()))?;
+            match parts[0] {
+                "old.full" => *p = q,
+                "old.exist" => {
+                    p.existence_proof = q.existence_proof;
+                    p.existence_vrf_proof = q.existence_vrf_proof;
+                }
+                "old.marker" => {
+                    p.marker_proof = q.marker_proof;
+                    p.marker_vrf_proof = q.marker_vrf_proof;
+                }
+                _ => {
+                    p.freshness_proof = q.freshness_proof;
+                    p.freshness_vrf_proof = q.freshness_vrf_proof;
+                }
+            }
         }
         ["fresh.len", n] => {
             let n: u32 = n.parse().map_err(|_| None)?;
@@ -1118,6 +1146,7 @@ fn step_inner(ex: &mut Exec, st: &mut L1State, op: &str, toks: &[&str]) -> Optio
             st.fx = None;
             st.readers.clear();
             st.unretired.clear();
+            st.snaps.clear();
             let mut inst = st.rt.block_on(Inst::new(toks[1], &st.cache_mode, st.parallelism))?;
             inst.readonly = st.readonly;
             st.inst = Some(inst);
@@ -1166,6 +1195,12 @@ fn step_inner(ex: &mut Exec, st: &mut L1State, op: &str, toks: &[&str]) -> Optio
             match r {
                 Ok(eh) => {
                     inst.roots.entry(eh.0).or_insert(eh.1);
+                    if !st.snaps.contains_key(&eh.0) {
+                        let recs = st.rt.block_on(inst.db.batch_get_all_direct()).unwrap_or_default();
+                        if recs.len() <= 800 {
+                            st.snaps.insert(eh.0, recs);
+                        }
+                    }
                     ex.stats.bump(op, "ok");
                     Some(format!("ok {} {}", eh.0, hex32(&eh.1)))
                 }
@@ -1867,7 +1902,7 @@ fn step_inner(ex: &mut Exec, st: &mut L1State, op: &str, toks: &[&str]) -> Optio
             let Some((mut p, ep, root)) = st.rt.block_on(inst.lookup(&u)) else { return Some("err".into()) };
             let truth = inst.verify_lookup(root, ep, &u, p.clone()).ok();
             for e in &toks[2..] {
-                match st.rt.block_on(apply_lookup_edit(inst, &u, &mut p, e)) {
+                match st.rt.block_on(apply_lookup_edit(inst, &st.snaps, &u, &mut p, e)) {
                     Ok(()) => {}
                     Err(Some(())) => return Some("err".into()),
                     Err(None) => return None,
